@@ -96,6 +96,11 @@ def fam_ring(tier):
     return out
 
 
+RING_RETS = {("sm", "on_transition"): ValueError("a returned exception object"),
+             ("L1", "on_transition"): 0, ("sm", "before_transition"): None,
+             ("L1", "before_transition"): KeyError("another one")}
+
+
 def ring_machine(mask):
     base = ring3(asyn=True, provs=("sm", "L1"))
     prov = []
@@ -472,12 +477,15 @@ def run_one(res, sc, ms, tier, bound, only_driver=None, only=None):
             (x, ph, prov, sends) = rule
             rules = {((prov, GENERIC[ph]), x): (tuple(sends), 1)}
         ops = [("send", ev, {}, f"e{i}") for i, ev in enumerate(hist)]
+        # one base scenario per mask returns unusual values from before/on callbacks: an
+        # exception *object*, a falsy value, None - returned values are data on both engines
+        rets = RING_RETS if (rule is None and hist == ("b", "c")) else {}
         twin_built = cached_build(("ring-twin",), lambda: ring3(asyn=False, provs=("sm", "L1")))
         try:
             # (with a rule on the initial enter the lazy async activation legitimately shifts
             # work from construction into the first send: no per-send twin comparison then)
             twin = None if (rule and rule[0] == "__initial__") else \
-                sync_twin_results(twin_built, ops, Plan(rules=rules))
+                sync_twin_results(twin_built, ops, Plan(rules=rules, rets=rets))
         except Ambiguous:
             twin = None
         for driver in DRIVERS:
@@ -485,7 +493,7 @@ def run_one(res, sc, ms, tier, bound, only_driver=None, only=None):
                 continue
             scj = {"family": "ring", "mask": mask, "rule": list(rule) if rule else None,
                    "history": list(hist), "tier": tier, "fault": None}
-            explore_scenario(res, scj, built, driver, ops, Plan(rules=rules), bound,
+            explore_scenario(res, scj, built, driver, ops, Plan(rules=rules, rets=rets), bound,
                              max_execs=1500 if tier == "quick" else 40000, twin=twin)
         # single faults at every position of the fault-free run (positions from the reference)
         if mask == "all" and (rule is None or tier == "thorough"):
